@@ -19,7 +19,6 @@ import (
 	"fmt"
 	"sort"
 	"strings"
-	"sync"
 )
 
 func (x *Exec) setCPU(st *State, cpu *PtrV, v Value, names ...string) {
@@ -165,56 +164,36 @@ func (r *Run) checkFn(ld *Loaded, key string, cases []stepCase, comps map[string
 		r.engineErr = append(r.engineErr, "no contract for "+key)
 		return
 	}
-	gen := func(useContracts bool, cs []stepCase) []*VC {
-		vcs := make([]*VC, len(cs))
-		var wg sync.WaitGroup
-		sem := make(chan struct{}, 16)
-		var mu sync.Mutex
-		for i, sc := range cs {
-			if r.only != "" && !strings.Contains(sc.name, r.only) {
-				continue
-			}
-			wg.Add(1)
-			sem <- struct{}{}
-			go func(i int, sc stepCase) {
-				defer wg.Done()
-				defer func() { <-sem }()
-				vc, err := ld.contractVC(c, vcOpts{name: key + "/" + sc.name, useContracts: useContracts, specialise: sc.spec,
-					comps: comps, frame: frame, safety: safety, onlySafety: sc.onlySafety,
-					replay: &ReplaySpec{Kind: "step", Call: call, Intr: true}, info: map[string]string{"case": sc.name}})
-				if err != nil {
-					mu.Lock()
-					r.engineErr = append(r.engineErr, err.Error())
-					mu.Unlock()
-					return
-				}
-				vc.caseIdx = i
-				vcs[i] = vc
-			}(i, sc)
-		}
-		wg.Wait()
-		var out []*VC
-		for _, v := range vcs {
-			if v != nil {
-				out = append(out, v)
+	if r.only != "" {
+		var f []stepCase
+		for _, sc := range cases {
+			if strings.Contains(sc.name, r.only) {
+				f = append(f, sc)
 			}
 		}
-		return out
+		cases = f
 	}
-	vcs := gen(true, cases)
-	res := r.discharge(vcs)
+	run := func(useContracts bool, cs []stepCase) []*OblResult {
+		return r.pipeline(len(cs), func(i int) (*VC, error) {
+			sc := cs[i]
+			return ld.contractVC(c, vcOpts{name: key + "/" + sc.name, useContracts: useContracts, specialise: sc.spec,
+				comps: comps, frame: frame, safety: safety, onlySafety: sc.onlySafety,
+				replay: &ReplaySpec{Kind: "step", Call: call, Intr: true}, info: map[string]string{"case": sc.name}})
+		})
+	}
+	res := run(true, cases)
 	final := map[string]*OblResult{}
 	var retry []stepCase
 	napp := 0
-	for i, o := range res {
+	for _, o := range res {
 		final[o.Name] = o
-		napp += vcs[i].Exec.applied
-		if o.Status != "discharged" && vcs[i].Exec.applied > 0 {
-			retry = append(retry, cases[vcs[i].caseIdx])
+		napp += o.applied
+		if o.Status != "discharged" && o.applied > 0 {
+			retry = append(retry, cases[o.vc.caseIdx])
 		}
 	}
 	if len(retry) > 0 {
-		for _, o := range r.discharge(gen(false, retry)) {
+		for _, o := range run(false, retry) {
 			if o.Status == "discharged" {
 				r.Stale = append(r.Stale, o.Name+": discharged only against callee bodies")
 			}
